@@ -616,12 +616,87 @@ fn run_metadata(ctx: &mut Ctx) -> Result<RunOut, Violation> {
             "directory"
         }
         _ => {
-            match catch(|| Crf::new(File::open("/dev/null").expect("open /dev/null"), HeaderMap::new())) {
-                Ok(Ok(_)) => return violation("C18", "device-accepted", "ChunkedReadFile::new succeeded on /dev/null".into()),
-                Err(p) => return violation("C18", "panic", p),
-                Ok(Err(_)) => {}
+            // Every kind of non-regular file a descriptor can stand for here; plus two regular
+            // controls (an anonymous memory file, a symlink followed to a regular file).
+            use std::os::unix::fs::OpenOptionsExt;
+            use std::os::unix::io::FromRawFd;
+            let kind = ctx.tape.draw(12);
+            let sock_path = dir.join("m.sock");
+            let fifo_path = dir.join("m.fifo");
+            let link_path = dir.join("m.lnk");
+            let dirlink_path = dir.join("m.dlnk");
+            for p in [&sock_path, &fifo_path, &link_path, &dirlink_path] {
+                let _ = std::fs::remove_file(p);
             }
-            "char-device"
+            let cpath = |p: &PathBuf| std::ffi::CString::new(p.to_string_lossy().as_bytes()).unwrap();
+            let mut keep_listener = None;
+            let (kname, file, must_accept): (&'static str, Option<File>, bool) = match kind {
+                0 => ("char-device-null", File::open("/dev/null").ok(), false),
+                1 => ("char-device-zero", File::open("/dev/zero").ok(), false),
+                2 => ("unix-socket-pair", std::os::unix::net::UnixStream::pair().ok().map(|(a, _b)| File::from(std::os::fd::OwnedFd::from(a))), false),
+                3 => {
+                    keep_listener = std::os::unix::net::UnixListener::bind(&sock_path).ok();
+                    ("unix-socket-path-O_PATH", std::fs::OpenOptions::new().read(true).custom_flags(libc::O_PATH).open(&sock_path).ok(), false)
+                }
+                4 => {
+                    let ok = unsafe { libc::mkfifo(cpath(&fifo_path).as_ptr(), 0o600) } == 0;
+                    ("fifo", if ok { std::fs::OpenOptions::new().read(true).custom_flags(libc::O_NONBLOCK).open(&fifo_path).ok() } else { None }, false)
+                }
+                5 => {
+                    let mut fds = [0i32; 2];
+                    let ok = unsafe { libc::pipe(fds.as_mut_ptr()) } == 0;
+                    ("pipe", if ok { unsafe { libc::close(fds[1]) }; Some(unsafe { File::from_raw_fd(fds[0]) }) } else { None }, false)
+                }
+                6 => {
+                    let _ = std::os::unix::fs::symlink(&path, &link_path);
+                    ("symlink-handle-O_PATH|O_NOFOLLOW", std::fs::OpenOptions::new().read(true).custom_flags(libc::O_PATH | libc::O_NOFOLLOW).open(&link_path).ok(), false)
+                }
+                7 => {
+                    let _ = std::os::unix::fs::symlink(&dir, &dirlink_path);
+                    ("symlink-to-directory", File::open(&dirlink_path).ok(), false)
+                }
+                8 => ("directory-O_PATH", std::fs::OpenOptions::new().read(true).custom_flags(libc::O_PATH | libc::O_DIRECTORY).open(&dir).ok(), false),
+                9 => {
+                    let fd = unsafe { libc::eventfd(0, 0) };
+                    ("eventfd-(anonymous-inode)", if fd >= 0 { Some(unsafe { File::from_raw_fd(fd) }) } else { None }, false)
+                }
+                10 => {
+                    let fd = unsafe { libc::memfd_create(c"m".as_ptr(), 0) };
+                    ("memfd-(regular)", if fd >= 0 { Some(unsafe { File::from_raw_fd(fd) }) } else { None }, true)
+                }
+                _ => {
+                    let _ = std::os::unix::fs::symlink(&path, &link_path);
+                    ("symlink-followed-to-regular", File::open(&link_path).ok(), true)
+                }
+            };
+            let out = match file {
+                None => {
+                    ctx.stats.bump("d_nonregular_kind_unavailable_here");
+                    kname
+                }
+                Some(f) => {
+                    // What the kernel says this descriptor is - the reference for the clause.
+                    let is_reg = f.metadata().map(|m| m.file_type().is_file()).unwrap_or(false);
+                    if is_reg != must_accept {
+                        ctx.stats.bump("d_nonregular_kind_unexpected_type_here");
+                        kname
+                    } else {
+                        match catch(|| Crf::new(f, HeaderMap::new())) {
+                            Ok(Ok(_)) if !must_accept => return violation("C18", "non-regular-file-accepted", format!("ChunkedReadFile::new succeeded on a {kname}")),
+                            Ok(Err(e)) if must_accept => return violation("C18", "regular-file-refused", format!("ChunkedReadFile::new failed on a {kname}: {e}")),
+                            Err(p) => return violation("C18", "panic", p),
+                            _ => {}
+                        }
+                        ctx.stats.bump("c18_file_kinds_judged");
+                        kname
+                    }
+                }
+            };
+            drop(keep_listener);
+            for p in [&sock_path, &fifo_path, &link_path, &dirlink_path] {
+                let _ = std::fs::remove_file(p);
+            }
+            out
         }
     };
     ctx.stats.grid.insert(format!("metadata|{name}"));
